@@ -122,6 +122,19 @@ def prove_on_message_received(src_root, ex: Explorer):
         fut = f.ghost['future']
         d0, m0, c0 = ctx.fresh_bool('done'), ctx.fresh_bool('matches'), ctx.fresh_bool('cancelled')
         fut.done, fut.cancelled = d0, z3.And(d0, c0)
+        # the waiter can also expire or be cancelled WHILE the handlers / listeners of this message run (they are awaited first): the
+        # done-check has to be made when the future is about to be completed, not before
+        expires_meanwhile = ctx.choose(2, 'expires-while-handlers-run') == 1
+        if expires_meanwhile:
+            ctx.assume(z3.Not(d0))
+            fut.done, fut.cancelled = False, False
+            flipped = []
+
+            def on_yield(it2, label):
+                if not flipped:
+                    flipped.append(label)
+                    fut.done, fut.cancelled = True, True
+            it.aio.on_yield = on_yield
 
         def c_matches(it2, fn, args, kwargs):
             log.append('match-check')
@@ -140,6 +153,10 @@ def prove_on_message_received(src_root, ex: Explorer):
             return
         ctx.ok('C12.on_message_received.no-raise')
         res = fut.result_val
+        if expires_meanwhile:
+            ctx.prove('C12.on_message_received.expired-meanwhile', res is None and bool(flipped),
+                      'a waiter that expired while the handlers of the message ran was completed anyway')
+            return
         completed_now = isinstance(res, tuple) and len(res) == 2 and res[0] is conn and res[1] is msg
         # on this path the engine has decided done/matches concretely (branches); state the spec per path
         ctx.prove('C12.on_message_received.complete', z3.Implies(z3.And(m0, z3.Not(d0)), z3.BoolVal(completed_now)),
@@ -320,8 +337,60 @@ def prove_execute(src_root, ex: Explorer):
     ex.run(path, 'execute')
 
 
+def prove_transfer_waiters(src_root, ex: Explorer):
+    """Pending requests created by the transfer negotiation (TransferManager._initialize_upload: the PeerTransferReply waiter) - exit-path
+    contract: on EVERY exit of the function (request could not be sent, reply, time-out) each waiter it registered is done, so that its
+    removal callback takes it out of the registry.  A waiter registered before a failing send and never awaited stays pending for ever."""
+    TMGR = 'transfer.manager'
+    outcomes = ['send-fails', 'reply-refused', 'timeout']
+
+    def path(ctx: Ctx):
+        it = mk(src_root, ctx)
+        oc = outcomes[ctx.choose(len(outcomes), 'outcome')]
+        net, log = mk_network(it, ctx)
+        created = []
+        real_create = it.getattr(net, 'create_peer_response_future')
+        reply = Stub('reply', allowed=False, reason='Cancelled')
+
+        def hook_await(it2, task):
+            if oc == 'timeout':
+                task.cancelled = True
+                task.complete(it2)
+                it2.throw('TimeoutError')
+            task.result_val = (Stub('connection'), reply)
+            task.complete(it2)
+            return task.result_val
+
+        def c_create(it2, fn, a, k):
+            fobj = it2.inline(fn, a, k)
+            fobj.ghost['future'].on_await = hook_await
+            created.append(fobj)
+            return fobj
+        it.hooks[f'{NET}:Network.create_peer_response_future'] = c_create
+
+        def send(it2, fn, a, k):
+            def body(it3):
+                if oc == 'send-fails':
+                    raise PyRaise(ExcVal(cls(it3, 'exceptions', 'ConnectionWriteError'), ('x',)))
+            return A.SimpleAwaitable(it2.aio, 'send_peer_messages', body)
+        it.hooks[f'{NET}:Network.send_peer_messages'] = send
+        st = Stub('state', **{m: Recorder(m, is_async=True) for m in ('initialize', 'queue', 'fail', 'start_transferring', 'complete', 'incomplete')})
+        t = Stub('transfer', state=st, username='bob', remote_path='f', filesize=10)
+        mgr = new(it, TMGR, 'TransferManager', _network=net, _ticket_generator=Stub('gen'))
+        it.natives['builtins.next'] = Native('builtins.next', lambda it2, a, k: 7)
+        try:
+            run(it, it.getattr(mgr, '_initialize_upload'), t)
+        except PyRaise as pr:
+            ctx.fail(f'C12.negotiation.no-raise[{oc}]', repr(pr.exc))
+            return
+        pending = [f for f in created if f.ghost['future'].done is not True]
+        ctx.prove(f'C12.negotiation.no-waiter-left[{oc}]', not pending,
+                  f'{len(pending)} PeerTransferReply waiter(s) registered by _initialize_upload are still pending when it returns: they are never removed')
+    ex.run(path, 'transfer-waiters')
+
+
 def items(src_root, tier):
-    return [('matches', None), ('omr', None), ('wait', 'server'), ('wait', 'peer'), ('registration', None), ('execute', None)]
+    return [('negotiation', None), ('matches', None), ('omr', None), ('wait', 'server'), ('wait', 'peer'), ('registration', None), ('execute', None)]
 
 
 def run_item(src_root, item, tier):
@@ -329,7 +398,9 @@ def run_item(src_root, item, tier):
     ex = Explorer()
     kind, arg = item
     try:
-        if kind == 'matches':
+        if kind == 'negotiation':
+            prove_transfer_waiters(src_root, ex)
+        elif kind == 'matches':
             prove_matches(src_root, ex)
         elif kind == 'omr':
             prove_on_message_received(src_root, ex)
